@@ -132,6 +132,10 @@ var entries = map[string]entry{
 }
 var entryNames []string
 
+// protoDict: constants the protocols use (key-wrap IVs of RFC 3394 / 5649, block prefixes, all-zero / all-one runs, text markers)
+var protoDict = [][]byte{{0xa6, 0xa6, 0xa6, 0xa6, 0xa6, 0xa6, 0xa6, 0xa6}, {0xa6, 0x59, 0x59, 0xa6, 0, 0, 0, 16}, {0, 0, 0, 0, 0, 0, 0, 0}, {0xff, 0xff, 0xff, 0xff, 0xff, 0xff, 0xff, 0xff},
+	{0x49, 0, 0, 0, 0}, {0x01, 0, 0, 0, 0}, {0x20}, {0xe0}, {0x00}, {0xff}, {'0', 'x'}, {'"', '"'}, {'n', 'u', 'l', 'l'}, {0x80}, {0x01}}
+
 func init() {
 	for k := range entries {
 		entryNames = append(entryNames, k)
@@ -182,7 +186,15 @@ func drvTotal(c *ctx) error {
 		for i := 0; i < c.n; i++ {
 			name := entryNames[i%len(entryNames)]
 			var b []byte
-			switch c.rnd.Intn(5) {
+			switch c.rnd.Intn(6) {
+			case 5: // a few tokens from a dictionary of constants the protocols use (key-wrap IVs, block prefixes, all-zero / all-one runs)
+				dict := protoDict
+				for k := c.rnd.Intn(7); k > 0; k-- {
+					b = append(b, dict[c.rnd.Intn(len(dict))]...)
+					if c.rnd.Intn(4) == 0 {
+						b = append(b, c.bytesN(c.rnd.Intn(9))...)
+					}
+				}
 			case 0:
 				b = c.bytesN(c.rnd.Intn(513))
 			case 1:
@@ -214,6 +226,13 @@ func drvTotal(c *ctx) error {
 				for _, d := range hexish {
 					ins = append(ins, []byte{a, b, d})
 				}
+			}
+		}
+		// every dictionary token alone and every ordered pair of tokens
+		for _, a := range protoDict {
+			ins = append(ins, append([]byte{}, a...))
+			for _, b := range protoDict {
+				ins = append(ins, append(append([]byte{}, a...), b...))
 			}
 		}
 		for _, name := range entryNames {
